@@ -135,10 +135,19 @@ def replayRing (s : BSt) (lgi : Nat) : BSt × Bool :=
     let res := go s r.replay
     if res.2 then res else (res.1.setLg lgi (fun l => { l with bt := some r.cleared }), false)
 
+/-- stable insertion sort (structurally recursive, so that concrete schedules evaluate in the kernel) -/
+def insSorted {α} (le : α → α → Bool) : List α → List α
+  | [] => []
+  | x :: xs =>
+    let rec ins (x : α) : List α → List α
+      | [] => [x]
+      | y :: ys => if le x y then x :: y :: ys else y :: ins x ys
+    ins x (insSorted le xs)
+
 /-- unique sinks of the valid loggers, in `LoggerManager` order (sorted by name = by gid for gid < 10) -/
 def activeSinks (s : BSt) : List Nat :=
   let live := (s.lgs.filter (fun l => !l.erased && l.valid))
-  let sorted := live.mergeSort (fun a b => a.gid ≤ b.gid)
+  let sorted := insSorted (fun a b => decide (a.gid ≤ b.gid)) live
   (sorted.flatMap (·.sinks)).eraseDups
 
 /-- `_flush_and_run_active_sinks` with "always flush": per-sink try/catch -/
@@ -199,8 +208,8 @@ def reapSinks (s : BSt) (sids : List Nat) : BSt :=
 def cleanupLoggers (s : BSt) : BSt :=
   if !s.hasInvalidLoggers then s else
   let s0 := { s with hasInvalidLoggers := false }
-  let order := ((List.range s0.lgs.length).filter (fun i => !(s0.lgOf i).erased)).mergeSort
-                 (fun a b => (s0.lgOf a).gid ≤ (s0.lgOf b).gid)
+  let order := insSorted (fun a b => decide ((s0.lgOf a).gid ≤ (s0.lgOf b).gid))
+                 ((List.range s0.lgs.length).filter (fun i => !(s0.lgOf i).erased))
   let step (acc : BSt × List Nat) (i : Nat) : BSt × List Nat :=
     let s := acc.1
     if (s.lgOf i).valid then acc else
